@@ -9,8 +9,8 @@ from ..core import shim as shim_mod
 PROPERTY = "C15"
 LEVEL = "exploration"
 RULE = ("every BenchmarkFunction with a scalar documented optimum x every listed dimension x box lattice (L levels per axis incl. "
-        "both bounds: 41/21/9/5/5/3 for d=1/2/3/4/5/10) plus the documented optimum and optimum +- h*e_i (h = 1e-3, 1e-2 of the width, "
-        "clipped), coordinates as Python floats and (d<=2 and the optimum neighbourhood) numpy float64; four points in a row on one problem object for lists / numpy scalars / numpy arrays (no aliasing, no vector modification, repeatable); XinSheYang3 with every "
+        "both bounds: 41/21/9/5/5/3 for d=1/2/3/4/5/10, 3 for d=6..8; for d=16, 20, 30 only corners and centre) plus the documented optimum, optimum +- h*e_i (h = 1e-3, 1e-2 of the width, "
+        "clipped), and the optimum scaled / shifted along the diagonal by 1e-5..1e-2, coordinates as Python floats and (d<=2 and the optimum neighbourhood) numpy float64; four points in a row on one problem object for lists / numpy scalars / numpy arrays (no aliasing, no vector modification, repeatable); XinSheYang3 with every "
         "combination of its uniform draws in {0, .5, 1-2^-53} for d<=3. Non-trivial = a point other than the documented optimum; "
         "distinct = distinct (function, dimension, point, dtype).")
 ASSUMPTIONS = ["lattice only: sound (a reported point is a real counterexample), complete only for the lattice points",
@@ -20,7 +20,8 @@ DIM_FUNCS = ["Rosenbrock", "Ackley", "Sphere", "Schwefel", "ModifiedEasom", "Equ
              "Zakharov", "XinSheYang", "XinSheYang2", "XinSheYang3", "AlpineFunction"]
 FIXED_FUNCS = ["SixHump", "Schubert", "Booth", "GramacyLee"]
 ROBUST_FUNCS = ["Synthetic1D", "Synthetic2D", "Synthetic5D", "Synthetic10D"]
-LEVELS = {1: 41, 2: 21, 3: 9, 4: 5, 5: 5, 10: 3}
+LEVELS = {1: 41, 2: 21, 3: 9, 4: 5, 5: 5, 6: 3, 7: 3, 8: 3, 10: 3}
+HIGH_DIMS = (16, 20, 30)       # only the documented optimum, its neighbourhood, the two corners and the centre of the box
 TOL = 1e-3
 
 _cache = {}
@@ -170,6 +171,13 @@ def optimum_points(p):
                 q = list(co)
                 q[i] = min(ub, max(lb, q[i] + sgn * h * (ub - lb)))
                 pts.append((tuple(q), False))
+    # radial neighbourhood: the optimum scaled about the origin and shifted along the diagonal, by small relative steps
+    for sc in (1e-5, 1e-4, 2e-4, 5e-4, 1e-3, 2e-3, 5e-3, 1e-2):
+        for sgn in (1, -1):
+            q = [min(par['bounds'][1], max(par['bounds'][0], c * (1 + sgn * sc))) for c, par in zip(co, p.parameters)]
+            pts.append((tuple(q), False))
+            q = [min(par['bounds'][1], max(par['bounds'][0], c + sgn * sc * (par['bounds'][1] - par['bounds'][0]))) for c, par in zip(co, p.parameters)]
+            pts.append((tuple(q), False))
     return pts
 
 
@@ -188,6 +196,15 @@ def _shard(shard, col: Collector):
     if name == "XinSheYang3":
         draws_list = list(itertools.product((0.0, 0.5, 1.0 - 2.0 ** -53), repeat=d)) if d <= 3 else [None, (0.0,) * d, (1.0 - 2.0 ** -53,) * d]
     firsts = axes[0] if first_idx is None else [axes[0][first_idx]]
+    if d in HIGH_DIMS:
+        firsts = []
+        for x in (tuple(par['bounds'][0] for par in p.parameters), tuple(par['bounds'][1] for par in p.parameters),
+                  tuple((par['bounds'][0] + par['bounds'][1]) / 2.0 for par in p.parameters)):
+            for as_numpy in (False, True):
+                col.case()
+                col.nontrivial((name, dim, x, as_numpy))
+                for key, msg in check_point(name, dim, x, as_numpy, False, None):
+                    col.violation(key, "point", msg, {"name": name, "dim": dim, "x": x, "numpy": as_numpy, "draws": None})
     for x0 in firsts:
         for rest in itertools.product(*axes[1:]):
             x = (x0,) + tuple(rest)
@@ -227,6 +244,8 @@ def replay(sub, case):
 def run(tier, seed):
     shards = []
     for name in DIM_FUNCS:
+        for dim in (5, 6, 7, 8) + HIGH_DIMS:
+            shards.append((name, dim, None))
         for dim in (1, 2, 3, 4, 10):
             if dim == 10:
                 for i in range(3):
